@@ -152,8 +152,9 @@ class ExplorerScriptSsbDecompiler:
 
             return self._output, self.smb.build()
 
-        except AssertionError:
-            # If an assertion failed, then either there is a bug in the decompiler or the script is not valid, ie.
+        except Exception:
+            # If an assertion failed (or the graph building / writing code gave up in any other way), then either
+            # there is a bug in the decompiler or the script is not valid, ie.
             # has no ending opcode at the end of routines. Try to fallback to SsbScript.
             self._routine_ops = raw_routine_backup_ops
             logger.warning("Failed to decompile. Falling back to SsbScript...")
